@@ -33,8 +33,9 @@ type lcPlan struct {
 
 // payload kinds: 0 opaque token, 1 nil, 2 a non-error Result holding a token, 3 a Result
 // holding a Result, 4 typed nil pointer, 5 typed nil map, 6 slice of tokens, 7 int, 8 error Result,
-// 9 a data value of a type that implements error
-const nPayloads = 10
+// 9 a data value of a type that implements error, 10 / 11 a map[string]any / []any with an identity
+// of its own (a copy of it is something else)
+const nPayloads = 12
 
 func (b *sb) payload(kind int) Val {
 	switch kind {
@@ -58,6 +59,13 @@ func (b *sb) payload(kind int) Val {
 		return vErrRes(b.errID())
 	case 9:
 		return vOther("errval")
+	case 10, 11:
+		t := b.tok()
+		if (t.N%2 == 0) != (kind == 10) {
+			t = b.tok() // even ids are maps, odd ids slices
+		}
+		t.Shape = "cont"
+		return t
 	}
 	return b.tok()
 }
@@ -67,11 +75,9 @@ func (b *sb) lifecycle(x int, d NodeDef, p lcPlan) {
 		if p.prepErr {
 			b.script(x, "prep", 0, []Resp{rErr(b.errID())}, rErr(b.errID()))
 		} else {
-			pk := p.pay
-			if pk == 8 {
-				pk = 0 // an error Result as prep value is not a payload the engine passes on (Value() is nil)
-			}
-			b.script(x, "prep", 0, []Resp{rOk(b.payload(pk))}, rOk(b.tok()))
+			// (an error Result as prep value, payload 8, is a value like any other: with a nil error
+			// the run goes on; a Result-style node passes on its Value(), which is nil)
+			b.script(x, "prep", 0, []Resp{rOk(b.payload(p.pay))}, rOk(b.tok()))
 		}
 	}
 	if d.Exec != "absent" {
